@@ -39,6 +39,7 @@ def run(ctx, sess):
     r3(ctx, P)
     r4(ctx, P)
     r5(ctx, P)
+    r5b(ctx, P)
     r6(ctx, P)
     r7(ctx, P)
     r8(ctx, P)
@@ -295,6 +296,56 @@ def r5(ctx, P):
         if strip_casts(lhs).get('field') == 'payload_prev_length' and rhs is not None and h.path(strip_casts(rhs)) is not None and h.path(strip_casts(rhs)).last_field() == 'last_payload_length':
             ok = True
     ctx.ob('C05.5', ok, h.name, 'payload_prev_length = last_payload_length', h.where(), '')
+
+
+def r5b(ctx, P):
+    """a file opened for appending knows the payload length of its last chunk before anything is appended"""
+    from ..graph import success_return
+    # functions that store last_payload_length (non-constant) and those that always reach one before returning 0
+    setters = set()
+    for g in P.fns_in('src/raw.c'):
+        for ev in g.stores():
+            lhs, rhs, o = ev.store_parts()
+            if strip_casts(lhs).get('field') == 'last_payload_length' and rhs is not None and const_of(rhs) is None:
+                setters.add(g.name)
+    changed = True
+    while changed:
+        changed = False
+        for g in P.all_functions():
+            if g.name in setters or not any(c.callee in setters for c in g.calls()):
+                continue
+            w = find_path(g, 'entry', lambda ev, facts: 'stop' if (ev.k == 'call' and ev.callee in setters) else
+                          ('target' if (ev.k == 'ret' and ret_class(g, ev, facts) in ('zero',)) else None))
+            if w is None:
+                setters.add(g.name)
+                changed = True
+    appenders = set(g.name for g in P.all_functions() if 'jls_raw_wr_header' in P.reachable_from([g.name])) | {'jls_raw_wr_header'}
+    n = 0
+    for fn in P.all_functions():
+        for op in fn.calls('jls_raw_open'):
+            m = strip_casts(op.args[2]) if len(op.args) > 2 else None
+            mode = m.get('s') if m is not None else None
+            if mode is None and m is not None:
+                mode = m.get('str') or m.get('v')
+            if mode != 'a':
+                continue
+            n += 1
+            ctx.saw(fn, 1)
+            # only continuations on which every call so far succeeded (error exits close the file and give up)
+            from ..guard import zero_edges_of_call
+            err_edges = set()
+            for c in fn.calls():
+                for (bid, lab) in zero_edges_of_call(fn, c):
+                    err_edges.add((bid, 'F' if lab == 'T' else 'T'))
+            err_edges -= set(e_ for c in fn.calls() for e_ in zero_edges_of_call(fn, c))
+            w = find_path(fn, op, lambda ev, facts: 'stop' if (ev.k == 'call' and ev.callee in setters) else
+                          ('target' if (ev.k == 'call' and ev.callee in appenders) else None),
+                          edge_ok=lambda b, s_, label: (b.id, label) not in err_edges)
+            ctx.ob('C05.5', w is None, fn.name, 'append-mode open establishes last_payload_length before the first append', op.where(),
+                   'the first writing call after the open is one of %s' % sorted(setters & set(c.callee for c in fn.calls())) if w is None else
+                   'after reopening the file for append a chunk header is written while last_payload_length is still 0: the next chunk carries payload_prev_length 0 and the file cannot be walked backwards',
+                   w.render() if w else None)
+    ctx.floor('append-mode opens', n, 1)
 
 
 def r6(ctx, P):
